@@ -466,7 +466,7 @@ Lemma Psi_expire st a rest st' id s' o nw kp k news :
   ae_ev a = ATimerFire id -> has_timer id (timers (l_snd st)) = true ->
   step repaired (lc_cfg lc) (l_snd st) (EExpire id) = Ok s' o -> oeff lc (ae_time a) (l_n1 st) o = (nw, kp, k) -> kp = tx_ids o ->
   l_snd st' = norm_sender s' -> l_now st' = ae_time a -> l_n2 st' = l_n2 st ->
-  l_wd st' = mkwd (wd_items (l_wd st) ++ kp) (wd_waiting (l_wd st)) ->
+  l_wd st' = wd_app (l_wd st) kp (ae_time a) ->
   AddsT rest (l_agenda st') news -> (forall n, In n nw -> In n news) ->
   Psi st' + 1 <= Psi st.
 Proof.
@@ -532,7 +532,7 @@ Lemma Psi_dupack st a rest st' k p sample orc s' o nw kp kk :
   step repaired (lc_cfg lc) (l_snd st) (EAck k p sample orc) = Ok s' o -> last_ack s' = last_ack (l_snd st) ->
   oeff lc (ae_time a) (l_n1 st) o = (nw, kp, kk) -> kp = tx_ids o ->
   l_snd st' = norm_sender s' -> l_n2 st' = l_n2 st ->
-  l_wd st' = mkwd (wd_items (l_wd st) ++ kp) (wd_waiting (l_wd st)) ->
+  l_wd st' = wd_app (l_wd st) kp (ae_time a) ->
   Psi st' <= Psi st.
 Proof.
   intros G G' E HT Hev Hstep HXs Ho Hkp Hsnd Hn2 Hwd.
@@ -606,7 +606,7 @@ Proof.
   assert (Cn : (l_n1 st <= l_n1 st')%nat /\ (l_n2 st <= l_n2 st')%nat /\ (nexp st' <= S (nexp st))%nat).
   { destruct HT as [e isack s' o nw kp k nwa Hev Hstep Ho Hnow Hsnd Hsink Hn2 Hslog Hn1 Hwd Hif HA' Hkp Hkeep Hpkt
                    | id r Hev Hfind Hk Hwd Hwa HA' | Hev Hk Hwd Hwa Hag | Hev Hk Hwa Hwd HA' | Hev Hk Hwd Hwa HA'
-                   | id tm ct Hev Hp Hq Hk Hwd Hwa HA' | ackno pid tm ct Hev Hq Hk Hwd Hwa HA'
+                   | id Hev Hq Hk Hwd Hwa HA' | ackno pid tm ct Hev Hq Hk Hwd Hwa HA'
                    | id tm ct Hev Hp Hnow Hsnd Hpkt Hn1 Hslog Hsink Hn2 Hwd Hif];
       try (destruct Hk as [k1 k2 k3 k4 k5 k6 k7]; unfold popped in *; lproj; rewrite (nexp_same _ _ k7); lia).
     - rewrite (nexp_cons _ _ _ Hslog). destruct (is_expire _); lia.
@@ -635,7 +635,7 @@ Proof.
   pose proof HT as HT0.
   destruct HT as [e isack s' o nw kp k nwa Hev Hstep Ho Hnow Hsnd Hsink Hn2 Hslog Hn1 Hwd Hif HA' Hkp Hkeep Hpkt
                  | id r Hev Hfind Hk Hwd Hwa HA' | Hev Hk Hwd Hwa Hag | Hev Hk Hwa Hwd HA' | Hev Hk Hwd Hwa HA'
-                 | id tm ct Hev Hp Hq Hk Hwd Hwa HA' | ackno pid tm ct Hev Hq Hk Hwd Hwa HA'
+                 | id Hev Hq Hk Hwd Hwa HA' | ackno pid tm ct Hev Hq Hk Hwd Hwa HA'
                  | id tm ct Hev Hp Hnow Hsnd Hpkt Hn1 Hslog Hsink Hn2 Hwd Hif].
   - (* sender *)
     rewrite (nexp_cons _ _ _ Hslog). cbn [sl_ev].
